@@ -447,6 +447,8 @@ class Engine:
                         tys.add(body['locals'][o[1][0]])
                 if tys & {'f32', 'f64'}:
                     op = op + '.f'
+                elif op == 'Shr' and rv[2][0] in ('cp', 'mv') and not rv[2][1][1] and body['locals'][rv[2][1][0]] in ('usize', 'u8', 'u16', 'u32', 'u64', 'u128'):
+                    op = 'Shr.u'       # a logical shift of an unsigned value: the same as a division by a power of two
             return self.binop(op, self.operand(st, frame, rv[2]), self.operand(st, frame, rv[3]))
         if k == 'un':
             return self.unop(rv[1], self.operand(st, frame, rv[2]))
@@ -799,18 +801,42 @@ class Engine:
             return mapping.get(m.group(0), m.group(0))
         return _IDENT.sub(rep, ty)
 
+    _PROJ = re.compile(r"<([^<>]+) as ([A-Za-z_][\w:]*)>::([A-Za-z_]\w*)")
+
+    def normalize_ty(self, ty):
+        """resolve projections `<Concrete as Trait>::Name` through the impl table (innermost first)"""
+        if not isinstance(ty, str) or ' as ' not in ty:
+            return ty
+        cache = self.__dict__.setdefault('_assoc', None)
+        if cache is None:
+            cache = {}
+            for i in self.facts.impls:
+                if i.get('trait'):
+                    for it in i['items']:
+                        if it.get('kind') == 'type' and it.get('ty'):
+                            cache[(i['self_ty'], i['trait'], it['name'])] = it['ty']
+            self._assoc = cache
+        for _ in range(8):
+            def rep(m):
+                return cache.get((m.group(1), m.group(2), m.group(3)), m.group(0))
+            new = self._PROJ.sub(rep, ty)
+            if new == ty:
+                break
+            ty = new
+        return ty
+
     def callee_types(self, st, frame, callee):
         """the callee record with its type arguments expressed in the root function's parameters"""
         mp = st.tys.get(frame)
         if not self.policy.subst_types or not mp or callee is None:
             return callee
         c2 = dict(callee)
-        c2['args'] = [self.subst_ty(mp, a) for a in callee['args']]
+        c2['args'] = [self.normalize_ty(self.subst_ty(mp, a)) for a in callee['args']]
         if c2.get('self_ty'):
-            c2['self_ty'] = self.subst_ty(mp, c2['self_ty'])
+            c2['self_ty'] = self.normalize_ty(self.subst_ty(mp, c2['self_ty']))
         if callee.get('res'):
             r2 = dict(callee['res'])
-            r2['args'] = [self.subst_ty(mp, a) for a in callee['res']['args']]
+            r2['args'] = [self.normalize_ty(self.subst_ty(mp, a)) for a in callee['res']['args']]
             c2['res'] = r2
         return c2
 
